@@ -21,7 +21,7 @@ File reader/writer (`Sys/Files.lean`), for **every** sequence of operations
                             after generating any list of targets, with or without `clean`: a file outside every output
                             directory is still there, and every new file is a logged write
 -/
-namespace Pydjinni.Gen
+namespace Pydjinni.GenC
 
 theorem join_rel_parts (a b : Path) (h : b.abs = false) :
     (a.join b).parts = a.parts ++ b.parts ∧ (a.join b).abs = a.abs := by
@@ -121,10 +121,10 @@ theorem legacy_loader_doubled (cc : GCfg) (h : cc.out.source.abs = false) :
 example : legacyJniLoader { out := .one (.rel ["o", "jni"]) } = .rel ["o", "jni", "o", "jni", "loader.cpp"] := by decide
 example : (place { out := .one (.rel ["o", "jni"]) } (.source, .rel ["loader.cpp"])).2 = .rel ["o", "jni", "loader.cpp"] := by decide
 
-end Pydjinni.Gen
+end Pydjinni.GenC
 
-namespace Pydjinni.Sys
-open Pydjinni.Gen
+namespace Pydjinni.SysC
+open Pydjinni.GenC
 
 variable {κ : Type}
 
@@ -377,4 +377,4 @@ example :
     (runTargets r ({ keys := ["cpp"] }, [["w", "gen", "cpp", "stale.hpp"], ["w", "gen", "cppx", "keep.txt"]])).2
       = [["w", "gen", "cppx", "keep.txt"], ["w", "gen", "cpp", "a", "x.hpp"]] := by decide +kernel
 
-end Pydjinni.Sys
+end Pydjinni.SysC
